@@ -35,6 +35,35 @@ Theorem C11_in_reads_spec :
 Proof. exact in_reads_spec. Qed.
 Print Assumptions C11_in_reads_spec.
 
+(* Lines of ANY length (IRCv3 tags make lines far longer than the 512 bytes of
+   RFC 1459): a stream made of lines l1..lk, each followed by the separator and
+   none containing it, and an unterminated rest, read in any non-empty chunks,
+   feeds exactly the messages of l1..lk and keeps exactly the rest.  No bound on
+   the length of a line or of the remainder held between two reads. *)
+Theorem C11_in_lines_any_length :
+  forall M decode ws (parse : str -> res M) sep ls rest cs,
+  Forall (fun l => mem sep l = false) ls -> mem sep rest = false ->
+  Forall (fun c => c <> []) cs ->
+  concat cs = concat (map (fun l => l ++ [sep]) ls) ++ rest ->
+  let st := run_trace M decode ws parse sep (init M) (reads cs) in
+  delivered st = fst (feed_lines M decode ws parse ls) /\
+  dead st = snd (feed_lines M decode ws parse ls) /\
+  (dead st = None -> inbuffer st = rest).
+Proof. exact in_lines_any_length. Qed.
+Print Assumptions C11_in_lines_any_length.
+
+(* The length made explicit: for every n, a line of n bytes cut anywhere. *)
+Theorem C11_in_line_of_length :
+  forall M decode ws (parse : str -> res M) sep (n : nat) line cs,
+  length line = n -> mem sep line = false ->
+  Forall (fun c => c <> []) cs -> concat cs = line ++ [sep] ->
+  let st := run_trace M decode ws parse sep (init M) (reads cs) in
+  delivered st = fst (feed_lines M decode ws parse [line]) /\
+  dead st = snd (feed_lines M decode ws parse [line]) /\
+  (dead st = None -> inbuffer st = []).
+Proof. exact in_line_of_length. Qed.
+Print Assumptions C11_in_line_of_length.
+
 (* The delivered message sequence (and the driver's fate and remainder) is the
    same for any two partitions of one byte stream into recv() chunks -- inside a
    multi-byte character, between CR and LF, anywhere. *)
